@@ -2,7 +2,7 @@
 // nu scripts, compared with what the properties say about the frames of one lifecycle.
 // Bound: handlers - replace, unregister, invalid script, failing closure (one name, one context each); generators - one pipeline of
 // three strings, a spawn without content, a spawn for a running name; commands - a three-value call, a failing call, an invalid
-// definition, a call for an unknown name, a redefinition. Timeouts are upper bounds; assertions are about which frames exist.
+// definition, a call for an unknown name, a redefinition, an identical redefinition. Timeouts are upper bounds; assertions are about which frames exist.
 use std::time::Duration;
 use xs::store::{Frame, Store, ZERO_CONTEXT};
 
@@ -119,6 +119,12 @@ async fn generator_lifecycle_start_recv_stop_and_refusals() {
     let e2: Vec<&Frame> = all.iter().filter(|f| f.topic == "g.spawn.error").collect();
     assert_eq!(e2.len(), 1, "C18: a spawn for a known name yields exactly one g.spawn.error");
     assert!(meta_str(e2[0], "source_id") == sp2.id.to_string() && e2[0].context_id == ctx && e2[0].meta.as_ref().unwrap().get("reason").is_some(), "C18: naming the refused spawn, with a reason");
+    // a refusal leaves the running generator registered: a further spawn of that name is refused as well
+    let sp4 = store.append(Frame::builder("g.spawn", ctx).hash(store.cas_insert(r#"["y"]"#).await.unwrap()).build()).unwrap();
+    wait_for(&store, |fs| fs.iter().filter(|f| f.topic == "g.spawn.error").count() >= 2, "the second g.spawn.error").await;
+    let again: Vec<Frame> = store.read_sync(None, None, None).filter(|f| f.topic == "g.spawn.error").collect();
+    assert!(again.len() == 2 && meta_str(&again[1], "source_id") == sp4.id.to_string(), "C18: every spawn for a running name is refused, each with its own g.spawn.error");
+    assert!(!store.read_sync(None, None, None).any(|f| f.topic == "g.start" && meta_str(&f, "source_id") == sp4.id.to_string()), "C18: a refused spawn is never started");
     let e3: Vec<&Frame> = all.iter().filter(|f| f.topic == "nohash.spawn.error").collect();
     assert_eq!(e3.len(), 1, "C18: a spawn without content yields exactly one .spawn.error");
     assert_eq!(meta_str(e3[0], "source_id"), sp3.id.to_string());
@@ -148,8 +154,16 @@ async fn command_calls_ordered_results_one_terminal_event() {
     tokio::time::sleep(Duration::from_millis(400)).await;
     let c4 = store.append(Frame::builder("three.call", ctx).build()).unwrap();
     wait_for(&store, |fs| fs.iter().filter(|f| f.topic == "three.complete").count() >= 2, "second three.complete").await;
+    // ... even when the new definition is byte-identical to the current one: calls are stamped with the LATEST definition's id
+    let def3 = store.append(Frame::builder("three.define", ctx).hash(store.cas_insert(r#"{run: {|frame| ["w"] }}"#).await.unwrap()).build()).unwrap();
+    tokio::time::sleep(Duration::from_millis(400)).await;
+    let c5 = store.append(Frame::builder("three.call", ctx).build()).unwrap();
+    wait_for(&store, |fs| fs.iter().filter(|f| f.topic == "three.complete").count() >= 3, "third three.complete").await;
     let all = quiet(&store).await;
     let of = |call: &Frame| -> Vec<&Frame> { all.iter().filter(|f| meta_str(f, "frame_id") == call.id.to_string()).collect() };
+    let r5 = of(&c5);
+    assert_eq!(r5.iter().map(|f| f.topic.as_str()).collect::<Vec<_>>(), vec!["three.recv", "three.complete"], "C19: call after an identical redefinition");
+    assert!(r5.iter().all(|f| meta_str(f, "command_id") == def3.id.to_string()), "C19: an identical redefinition is still the latest definition: its id stamps the results");
     let r1 = of(&c1);
     let t1: Vec<&str> = r1.iter().map(|f| f.topic.as_str()).collect();
     assert_eq!(t1, vec!["three.recv", "three.recv", "three.recv", "three.complete"], "C19: one recv per value in order, then exactly one complete");
